@@ -68,6 +68,7 @@ finding_class('S10', _s10_class)
 
 contract(C + 'TileManager.is_cached', props=['C13'],
          types=dict(tile='opaque', dimensions='opaque'), returns='bool',
+         requires=['not isinstance(tile, tuple)'],      # the Tile-object form (a bare coordinate is wrapped in a Tile first)
          default_callee='opaque', opaque_fields=OF, stable_fields=['coord'],
          opaque_spec={'is_cached': {'returns': 'bool', 'pure': True},
                       'expire_timestamp': {'returns': 'opt[real]', 'pure': True},
@@ -136,11 +137,27 @@ def _metadata_from_lstat(ex, st, post, result):
         goal = z3.And(goal, eq(ls[0][1].args[0], loc[0][1].result))
     yield ('metadata_from_lstat_of_tile_location', goal,
            "timestamp/size come from os.lstat of the tile's own location (a single-colour link reports its own time)")
+    # what is recorded: the stat values when the file exists; (0, 0) - "infinitely old, empty" - when it does not
+    from pyvc.values import to_real, to_int
+    tile = post.env['tile']
+    ts = [e for i, e in T.evs(st, 'setattr:timestamp')]
+    sz = [e for i, e in T.evs(st, 'setattr:size')]
+    g2 = z3.BoolVal(len(ts) == 1 and len(sz) == 1 and ts[0].args[0] is tile and sz[0].args[0] is tile)
+    if ok and len(ts) == 1 and len(sz) == 1:
+        if ls[0][1].raised:
+            g2 = z3.And(g2, to_real(ts[0].args[1]) == 0, to_int(sz[0].args[1]) == 0)
+        else:
+            stats = ls[0][1].result
+            g2 = z3.And(g2, eq(ts[0].args[1], ex.opaque_field(st, stats, 'st_mtime')), eq(sz[0].args[1], ex.opaque_field(st, stats, 'st_size')))
+    yield ('metadata_values', g2,
+           'tile.timestamp/size = st_mtime/st_size of that lstat; a missing file (the only OSError that is swallowed) gives (0, 0)')
 
 
 contract('mapproxy.cache.file:FileCache.load_tile_metadata', props=['C13', 'C20'],
          types=dict(tile='opaque', dimensions='opaque'), returns='none',
-         default_callee='opaque', opaque_fields={'timestamp': 'real', 'size': 'int'},
-         opaque_spec={'lstat': {'raises': ['OSError']}, 'stat': {'raises': ['OSError']}},
+         default_callee='opaque', opaque_fields={'timestamp': 'real', 'size': 'int', 'st_mtime': 'real', 'st_size': 'int'},
+         stable_fields=['st_mtime', 'st_size'],
+         opaque_spec={'lstat': {'raises': ['OSError']}, 'stat': {'raises': ['OSError']}, 'tile_location': {'returns': 'str', 'pure': True}},
+         opaque=['tile_location'],
          raises={'OSError': True},
          trace=[_metadata_from_lstat])
